@@ -34,7 +34,7 @@ ASSUMPTIONS = ['rtol 1e-9 (atol 1e-12 x magnitude) between elfi outputs and the 
                'inside samplers the rows of a round are the batches delivered to update() during that round']
 CONFIG = {
     'quick': {'shards': 16, 'cases': 60, 'timeout': 600, 'floor': 150},
-    'thorough': {'shards': 32, 'cases': 700, 'timeout': 3000, 'floor': 4000},
+    'thorough': {'shards': 32, 'cases': 1500, 'timeout': 3000, 'floor': 8000},
 }
 REQUIRED = ['dist_with_values_checks', 'dist_generate_checks', 'dist_batch_size_1', 'dist_metric_with_kwargs',
             'dist_scalar_summaries', 'dist_vector_summaries', 'adapt_add_data_calls', 'adapt_scale_checks',
